@@ -21,7 +21,7 @@ vars == <<l, cfg, conns, gsk, subs, mesh, trk, fan, keep, neg, low, sc, bo, now,
 
 Range(s) == {s[i] : i \in 1..Len(s)}
 R == Rec[l]
-OpNames == {"connect", "kind", "close", "rpc", "sub", "unsub", "pub", "score", "hb", "tick"}
+OpNames == {"connect", "kind", "close", "rpc", "sub", "unsub", "pub", "score", "hb", "tick", "stall", "unstall"}
 
 Peers == 0..(cfg.np - 1)
 Topics == 0..(cfg.nt - 1)
@@ -72,6 +72,14 @@ NewBo == [t \in Topics |-> [p \in Peers |->
 
 Added(t) == OMesh[t] \ mesh[t]
 
+(* C35 memory: fan[t] = the peers that were in the fanout set of t at some point since the set was last maintained
+   (heartbeat) or dissolved (we subscribed to t) and that have been eligible ever since (connected, tracked as
+   subscribed to t, not below the publish threshold).  A peer the router drops from the set in ANY step although it
+   stays eligible is still remembered here and is missed at the next publish. *)
+EligibleAfter(t) == {q \in Peers : NewConns[q] # {} /\ t \in OTrk[q] /\ q \notin Range(R.low)}
+NewFan == [t \in Topics |-> IF R.e = "hb" \/ (R.e = "sub" /\ R.t = t) THEN OFan[t]
+                              ELSE (fan[t] \cap EligibleAfter(t)) \cup OFan[t]]
+
 (* ---- C36 helpers: the subscription request carried by an rpc event ---- *)
 SubT == {SubEntries[i][1] : i \in {j \in 1..Len(SubEntries) : SubEntries[j][2]}}
 UnsubT == {SubEntries[i][1] : i \in {j \in 1..Len(SubEntries) : ~SubEntries[j][2]}}
@@ -106,7 +114,7 @@ Step == /\ R.e \in OpNames
         /\ conns' = NewConns
         /\ gsk' = (IF R.e = "kind" /\ R.k = "g" THEN gsk \cup {R.p} ELSE gsk) \ Gone
         /\ subs' = Range(R.subs)
-        /\ mesh' = OMesh /\ trk' = OTrk /\ fan' = OFan
+        /\ mesh' = OMesh /\ trk' = OTrk /\ fan' = NewFan
         /\ keep' = Range(R.keep) /\ neg' = Range(R.neg) /\ low' = Range(R.low) /\ sc' = OSc
         /\ now' = NewNow /\ bo' = NewBo
         /\ viol' = StepViolations
